@@ -15,6 +15,11 @@ TEXT = {
     'C01': ('Theorems over ALL event histories of the broker model: C01.delivery_log (the PUBLISH frames written to a connection are exactly, in order, the accepted publishes listing it as recipient), exactly_entitled (recipients = connections subscribed and open at that moment, once each), publish_exact (what one accepted publish does to every action log), frame_carries, common_order (any two receivers see sub-sequences of one acceptance order). Invariant proof by a generic preservation principle over the model primitives (Lemmas/BrokerPres, BrokerReg, BrokerDeliv). Tie + failing-input search: broker engine with an independent spec-level shadow.', BROKER_NOTE),
     'C03': ('Theorems over ALL histories: C03.accepted_sound / every_delivery_sound (every PUBLISH frame ever written names the ident its sender was authenticated as and a channel on that identity\'s publish list) and reject_publish (any other ident string or channel, in ANY state: ERROR + close for the sender, accepted log / registry / gauges / every other connection unchanged).', BROKER_NOTE),
     'C04': ('Theorems over ALL histories and ALL continuations: C04.granted_only, recipients_granted (every recipient of every accepted publish had passed the subscribe ACL), no_publish_after_close (once closing — for any reason — no PUBLISH is ever written again, whatever the schedule of the closing window), forbidden_subscribe (ERROR + close).', BROKER_NOTE),
+    'C02': ('Theorems over ALL histories: C02.first_write_is_info (first action on every connection is OP_INFO with the name and THAT connection\'s nonce), preauth_inert / preauth_receives_nothing / accepted_from_authenticated (an unauthenticated connection holds nothing, is in no registry, is never a recipient; every accepted publish came from an authenticated sender), authenticated_by_digest (ak set only by a digest = H(own nonce ++ stored secret)), auth_iff (decision logic of OP_AUTH, any state), non_auth_first_frame, bad_header_just_disconnects, wrong_length_never_matches. H is an arbitrary function. The nonce-variety clause is decided by the monitor on os.urandom only (stated in DESIGN.md).', BROKER_NOTE),
+    'C08': ('Theorems over ALL histories: C08.follows_last_request (for a known connection, subscribed IFF the last processed (UN)SUBSCRIBE for that channel was a SUBSCRIBE — refinement to the request log, sequences of any length), registry_once, repeated_subscribe_noop, after_unsubscribe, unsubscribe_not_subscribed_noop, subscribe_resumes; Legacy.d2_still_subscribed is the pinned tree\'s counter-example.', BROKER_NOTE),
+    'C10': ('Theorems for EVERY state and EVERY event: C10.untouched_by_others (an event about another connection or the clock leaves every field of a connection\'s record alone, except PUBLISH frames appended while it is open and forgetting it when it is already closing), closing_is_own, open_stays_subscribed, only_publishes_from_others; termination = totality of Broker.step / fuel-free Broker.loop (rests on C07). What a well-behaved connection is entitled to: C01 theorems hold for all histories.', BROKER_NOTE + ' Resource exhaustion and hangs inside C code are runtime: per-event watchdog only.'),
+    'C14': ('Theorems: C14.parks / auth_parks (an OP_AUTH with an asynchronous store records the look-up, pauses reading and leaves the following bytes in the unpacker verbatim), pending_inert (no event about another connection touches the parked bytes, pending look-ups, paused state or identity), verdict_success (exactly the synchronous authenticate state change followed by ONE loop pass over the parked bytes) with sync_auth_success (the synchronous path is the same function), verdict_failure (ERROR + close only; parked bytes never processed). The single end-to-end commutation theorem across the two store configurations (verdict_commutes in DESIGN.md) is NOT proved: partial, stated in the Lean file header.', BROKER_NOTE),
+    'C15': ('Theorems: C15.fresh_grace, recovered_not_dropped, fire_iff_due (any state); deadline_is_last_stall (ALL histories: an armed deadline = time of the last pause_writing not followed by resume/expiry + 60 s); dropped_exactly_at_deadline and due_timer_fires_first (ALL valid histories: the clock never passes an armed deadline, the drop happens at exactly pause+60 000 ms and before any other event).', BROKER_NOTE + ' That asyncio calls pause_writing above the high-water mark is library behaviour (not proved).'),
     'C09': ('Theorems over ALL histories and ALL continuations: C09.lost_forgets (after connection_lost in ANY state the record is unregistered, holds no subscription, is in no registry entry), lost_stable / unregistered_stable (stays so under every later event: late verdicts, deadline timers, other traffic), others_unaffected, unregistered_forgotten (covers the broker-forced loss).', BROKER_NOTE),
     'C05': ('Theorem C05.roundtrip: for EVERY in-range message of every opcode the builder succeeds, its 4-byte header equals the bytes produced, the stream decoder yields exactly that one frame and the reader returns the original fields; plus obligations that the extracted limit table admits everything the builders emit. Tie: constants regenerated from protocol.py each run + differential run of msg*/Unpacker/read* against the model.',
             'Lean kernel + 3 standard axioms; struct, the UTF-8 codec and SHA-1 are modelled (each compared with the implementation on every run); the correspondence generator bounds what the tie sees.'),
